@@ -632,6 +632,30 @@ Proof.
   exact (completed_file_not_checked hash hash_eqb HS txfile c n (mkFile v stmts' false) r eq_refl Hv Hd).
 Qed.
 
+(** 27. = 20 without a premise on the stored hashes: the table was reached by
+    any history of attempts on the file under arbitrary storage/statement
+    faults, interleaved with tail-only edits ([file_history], theorems 15/16);
+    then statement [j] of the part applied so far is re-spaced: refused under
+    every fault stream, HistoryChanged when no storage call fails. *)
+Theorem C12_whitespace_edit_refused_end_to_end :
+  forall (f f_new : file) (t : list (rev hash)) (r : rev hash) (j : nat) (s s' : bytes),
+  file_history hash hash_eqb HS f t -> f_version f_new = f_version f ->
+  tbl_get t (f_version f) = Some r -> r_applied r <> r_total r ->
+  j < r_applied r ->
+  nth_error (f_stmts f) j = Some s -> nth_error (f_stmts f_new) j = Some s' ->
+  whitespace_edit s s' ->
+  forall fs o t' fs' es, execute_st hash hash_eqb HS f_new t fs = (o, t', fs', es) ->
+  collision_at hash HS (f_stmts f) (f_stmts f_new) (r_applied r) \/
+  (exec_events es = [] /\ t' = t /\ o <> SExec ODone /\
+   (hd false fs = false -> hd false (tl fs) = false ->
+      exists i, o = SExec (OHistory i) /\ 1 <= i <= r_applied r)).
+Proof.
+  intros f f_new t r j s s' HH Hv Hget Hpart Hj Ho Hn [Hne _].
+  apply (C12_history_refuse_lemma hash hash_eqb HS hash_eqb_spec f f_new t r HH Hv Hget); [|exact Hpart|].
+  - destruct (r_applied r); [inversion Hj|apply Nat.lt_0_succ].
+  - exact (firstn_differs (f_stmts f) (f_stmts f_new) (r_applied r) j s s' Hj Ho Hn Hne).
+Qed.
+
 End C12_round5.
 
 (** 25. The stored text of a partial hash is "h1:" + sum and the comparison is
@@ -656,6 +680,7 @@ Print Assumptions C12_refusal_independent_of_name.
 Print Assumptions C12_partial_hash_chain.
 Print Assumptions C12_h1_prefix_transparent.
 Print Assumptions C12_completed_file_edit_not_detected.
+Print Assumptions C12_whitespace_edit_refused_end_to_end.
 
 (** Non-vacuity (round 5).  [ws_old]: VALUES ('a  b') / X / Y, two applied;
     [ws_new]: the double blank of statement 1 became single. *)
@@ -703,3 +728,19 @@ Example C12_completed_file_edit_not_detected_nonvacuous :
     [mkFile [50%N] [[90%N]; [91%N]] false] [mkRev [50%N] 3 3 [] false 2%N] [] =
   (CPend PendingModel.PNoPending, [mkRev [50%N] 3 3 [] false 2%N], [], [], []).
 Proof. vm_compute. reflexivity. Qed.
+
+(** the table after one real attempt on [ws_old] (fails at its 3rd statement), then statement 2 "X" -> "X " *)
+Example C12_whitespace_edit_refused_end_to_end_nonvacuous :
+  exists t r,
+    file_history bytes bytes_eqb ex_HS (mkFile [50%N] ws_old false) t /\
+    tbl_get t [50%N] = Some r /\ r_applied r = 2 /\ r_total r = 3 /\
+    whitespace_edit [88%N] [88%N; 32%N] /\
+    fst (fst (fst (execute_st bytes bytes_eqb ex_HS (mkFile [50%N] [ws_s; [88%N; 32%N]; [89%N]] false) t []))) = SExec (OHistory 2).
+Proof.
+  eexists _, _. split.
+  - eapply (FH_attempt bytes bytes_eqb ex_HS (mkFile [50%N] ws_old false) [] [false; false; false; false; false; false; true]).
+    + apply FH_first. reflexivity.
+    + intros r H. discriminate.
+    + vm_compute. reflexivity.
+  - vm_compute. repeat split; auto; discriminate.
+Qed.
